@@ -799,6 +799,15 @@ Section Cover.
     wi_mvf : forall c x, alookup N.eqb c (mvf r) = Some x -> (c < k_next_cookie k)%N
   }.
 
+  Lemma ino_inj_k k a b : NoDup (map kw_ino (k_watches k)) -> In a (k_watches k) -> In b (k_watches k) ->
+    kw_ino a = kw_ino b -> a = b.
+  Proof.
+    generalize (k_watches k). intros l. induction l as [|x l IH]; simpl; intros Hnd Ha Hb E; [contradiction|].
+    inversion Hnd; subst. destruct Ha as [->|Ha], Hb as [->|Hb]; auto.
+    - exfalso. apply H1. rewrite E. now apply in_map.
+    - exfalso. apply H1. rewrite <- E. now apply in_map.
+  Qed.
+
   Lemma wd_inj k a b : NoDup (map kw_wd (k_watches k)) -> In a (k_watches k) -> In b (k_watches k) ->
     kw_wd a = kw_wd b -> a = b.
   Proof.
@@ -1080,6 +1089,17 @@ Section Cover.
                  Some (w', read_batch C (w_fs w') (r, drainq k1, []) (k_queue k1))
     end.
 
+  Lemma WInv_ext' t t' k k' r : WInv t k r ->
+    (forall e, In e t -> f_dir e = true -> (exists kw, In kw (k_watches k) /\ kw_ino kw = f_ino e) -> In e t') ->
+    k_watches k' = k_watches k -> k_next_wd k' = k_next_wd k -> (k_next_cookie k <= k_next_cookie k')%N ->
+    WInv t' k' r.
+  Proof.
+    intros I Ht Hw Hn Hc. constructor; rewrite ?Hw, ?Hn; try apply I.
+    - intros kw Hk. destruct (wi_exact _ _ _ I kw Hk) as (e & He & De & Se & Ie & R). exists e.
+      split; [apply Ht; eauto | auto].
+    - intros c x Hx. apply (wi_mvf _ _ _ I) in Hx. lia.
+  Qed.
+
   Lemma WInv_ext t t' k k' r : WInv t k r ->
     (forall e, In e t -> f_dir e = true -> In e t') ->
     k_watches k' = k_watches k -> k_next_wd k' = k_next_wd k -> (k_next_cookie k <= k_next_cookie k')%N ->
@@ -1309,5 +1329,189 @@ Section Cover.
         * exfalso. cbn [f_path x] in Se. destruct (scope_parent p Np Se Hpr) as [Sd _].
           rewrite <- Ede in Sd. destruct (Cv de Hde Dde Sd) as (kw & A & _). congruence.
         * destruct (Cv e He0 De Se) as (kw0 & A1 & A2). exists kw0. split; assumption.
+  Qed.
+
+  (* ------------------------------------------------------------------ 2b: Rmdir (and the kernel dropping a watch) *)
+  Lemma kpush_fresh q e : (forall a, In a q -> k_mask a <> k_mask e) -> kpush q e = q ++ [e].
+  Proof.
+    intros H. unfold kpush. destruct (rev q) as [|l rq] eqn:E; [reflexivity|].
+    assert (Hl : In l q) by (apply in_rev; rewrite E; now left).
+    apply H in Hl. unfold kraw_eqb. apply N.eqb_neq in Hl. now rewrite Hl, andb_false_r.
+  Qed.
+
+  Definition ign_ev (kw : kwatch) : kraw := {| k_wd := kw_wd kw; k_mask := IN_IGNORED; k_cookie := 0; k_name := [] |}.
+  Definition self_mask (m : N) : Prop := m = N.lor IN_ATTRIB IN_ISDIR \/ m = IN_DELETE_SELF.
+
+  Lemma kgone_spec k i af kw : watch_of_ino k i = Some kw ->
+    (forall a, In a (k_queue k) -> ~ self_mask (k_mask a) /\ k_mask a <> IN_IGNORED) ->
+    exists pre, kgone k i af =
+      {| k_watches := filter (fun x => negb (N.eqb (kw_wd x) (kw_wd kw))) (k_watches k); k_next_wd := k_next_wd k;
+         k_queue := k_queue k ++ pre ++ [ign_ev kw]; k_next_cookie := k_next_cookie k |} /\
+      Forall (fun e => k_wd e = kw_wd kw /\ k_name e = [] /\ self_mask (k_mask e)) pre.
+  Proof.
+    intros Hw Hq. unfold kgone. rewrite Hw.
+    set (k1 := if af then knotify k i IN_ATTRIB true 0 [] else k).
+    assert (H1 : exists pre1, k1 = kset_queue k (k_queue k ++ pre1) /\
+                   Forall (fun e => k_wd e = kw_wd kw /\ k_name e = [] /\ k_mask e = N.lor IN_ATTRIB IN_ISDIR) pre1).
+    { subst k1. destruct af.
+      - destruct (knotify_cases k i IN_ATTRIB true 0 []) as [->|(kw' & Hw' & _ & ->)].
+        + exists []. rewrite app_nil_r. split; [now destruct k | constructor].
+        + assert (kw' = kw) by congruence. subst kw'. exists [kev kw IN_ATTRIB true 0 []].
+          rewrite kpush_fresh; [split; [reflexivity | constructor; [now repeat split | constructor]]|].
+          intros a Ha. apply Hq in Ha as [Ha _]. intros E. apply Ha. left. exact E.
+      - exists []. rewrite app_nil_r. split; [now destruct k | constructor]. }
+    destruct H1 as (pre1 & -> & Hpre1).
+    assert (Hw1 : watch_of_ino (kset_queue k (k_queue k ++ pre1)) i = Some kw) by (rewrite (watch_of_ino_ext k); [exact Hw | reflexivity]).
+    assert (Hfresh : forall e a, In a ((k_queue k ++ pre1)) -> k_mask e = IN_DELETE_SELF -> k_mask a <> k_mask e).
+    { intros e a Ha Ee. rewrite Ee. apply in_app_iff in Ha as [Ha|Ha].
+      - apply Hq in Ha as [Ha _]. intros E. apply Ha. now right.
+      - rewrite Forall_forall in Hpre1. apply Hpre1 in Ha as (_ & _ & ->). vm_compute. discriminate. }
+    destruct (knotify_cases (kset_queue k (k_queue k ++ pre1)) i IN_DELETE_SELF false 0 []) as [->|(kw' & Hw' & _ & ->)].
+    - exists pre1. cbn [kset_queue k_watches k_next_wd k_queue k_next_cookie]. rewrite kpush_fresh.
+      + rewrite <- app_assoc. split; [reflexivity|]. eapply Forall_impl; [|exact Hpre1].
+        intros a (A1 & A2 & A3). repeat split; try assumption. now left.
+      + intros a Ha. cbn. apply in_app_iff in Ha as [Ha|Ha].
+        * now apply Hq in Ha as [_ Ha].
+        * rewrite Forall_forall in Hpre1. apply Hpre1 in Ha as (_ & _ & ->). vm_compute. discriminate.
+    - assert (kw' = kw) by congruence. subst kw'. exists (pre1 ++ [kev kw IN_DELETE_SELF false 0 []]).
+      cbn [kset_queue k_watches k_next_wd k_queue k_next_cookie].
+      rewrite (kpush_fresh (k_queue k ++ pre1)) by (intros a Ha; now apply Hfresh).
+      rewrite kpush_fresh.
+      + rewrite <- !app_assoc. split; [reflexivity|]. apply Forall_app. split.
+        * eapply Forall_impl; [|exact Hpre1]. intros a (A1 & A2 & A3). repeat split; try assumption. now left.
+        * constructor; [|constructor]. repeat split. now right.
+      + intros a Ha. cbn. apply in_app_iff in Ha as [Ha|[<-|[]]].
+        * apply in_app_iff in Ha as [Ha|Ha]; [now apply Hq in Ha as [_ Ha]|].
+          rewrite Forall_forall in Hpre1. apply Hpre1 in Ha as (_ & _ & ->). vm_compute. discriminate.
+        * vm_compute. discriminate.
+  Qed.
+
+  Lemma read_one_ignored t r k acc wd p : alookup N.eqb wd (pfw r) = Some p -> alookup beqb p (wfp r) = Some wd ->
+    read_one C t (r, k, acc) {| k_wd := wd; k_mask := IN_IGNORED; k_cookie := 0; k_name := [] |} =
+    Done ({| wfp := aremove beqb p (wfp r); pfw := aremove N.eqb wd (pfw r); mvf := mvf r; calls := calls r |}, k,
+          acc ++ [{| r_wd := wd; r_mask := IN_IGNORED; r_cookie := 0; r_name := []; r_path := p |}]).
+  Proof.
+    intros Hp Hw. unfold read_one. cbn [k_wd k_mask k_cookie k_name]. rewrite Hp.
+    change (is_moved_from IN_IGNORED) with false. change (is_moved_to IN_IGNORED) with false.
+    change (is_ignored IN_IGNORED) with true. change (is_directory IN_IGNORED) with false. cbv iota.
+    cbn [pfw wfp mvf calls]. rewrite Hp, Hw, N.eqb_refl. rewrite andb_false_r. reflexivity.
+  Qed.
+
+  (* the watch state after the kernel dropped the watch kw of directory entry ep and the reader saw IN_IGNORED *)
+  Definition dropped (r : rstate) (p : bytes) (wd : N) : rstate :=
+    {| wfp := aremove beqb p (wfp r); pfw := aremove N.eqb wd (pfw r); mvf := mvf r; calls := calls r |}.
+
+  Lemma dropped_sync w t' k r ep kw k' :
+    wf_fs w -> WInv (w_fs w) k r -> Cover (w_fs w) k r -> In ep (w_fs w) -> cov k r ep kw ->
+    (forall e, In e t' -> f_dir e = true -> In e (w_fs w) /\ e <> ep) ->
+    (forall e, In e (w_fs w) -> f_dir e = true -> e <> ep -> In e t') ->
+    k_watches k' = filter (fun x => negb (N.eqb (kw_wd x) (kw_wd kw))) (k_watches k) ->
+    k_next_wd k' = k_next_wd k -> (k_next_cookie k <= k_next_cookie k')%N ->
+    WInv t' k' (dropped r (f_path ep) (kw_wd kw)) /\ Cover t' k' (dropped r (f_path ep) (kw_wd kw)).
+  Proof.
+    intros W I Cv Hep (Cw & Cp & Cf) Ht1 Ht2 Hw Hn Hc.
+    destruct (watch_of_ino_some _ _ _ Cw) as [Hkw Ekw].
+    assert (Hfil : forall x, In x (k_watches k') <-> In x (k_watches k) /\ kw_wd x <> kw_wd kw).
+    { intros x. rewrite Hw, filter_In, negb_true_iff, N.eqb_neq. tauto. }
+    assert (Hother : forall x e, In x (k_watches k) -> In e (w_fs w) -> f_ino e = kw_ino x -> kw_wd x <> kw_wd kw -> e <> ep).
+    { intros x e Hx He Ei Hne ->. apply Hne. f_equal. apply (ino_inj_k k); [apply I| | |]; try assumption. congruence. }
+    split.
+    - constructor; cbn [dropped wfp pfw mvf].
+      + intros x Hx. apply Hfil in Hx as [Hx _]. rewrite Hn. now apply (wi_lt _ _ _ I).
+      + rewrite Hw. apply NoDup_map_filter, I.
+      + rewrite Hw. apply NoDup_map_filter, I.
+      + intros x Hx. apply Hfil in Hx as [Hx _]. now apply (wi_mask _ _ _ I).
+      + intros x Hx. apply Hfil in Hx as [Hx Hne].
+        destruct (wi_exact _ _ _ I x Hx) as (e & He & De & Se & Ie & Pe & We).
+        assert (Ene : e <> ep) by (eapply Hother; eauto).
+        exists e. split; [now apply Ht2|]. repeat split; try assumption.
+        * now rewrite prem_neq.
+        * rewrite wrem_neq; [assumption|]. intros E. apply Ene. apply (path_inj (w_fs w)); [apply W| | |]; assumption.
+      + intros x wd Hx. destruct (bytes_eq_dec x (f_path ep)) as [->|Hne]; [now rewrite wrem_eq in Hx|].
+        rewrite wrem_neq in Hx by assumption. destruct (wi_tight _ _ _ I x wd Hx) as ((kw0 & Hk0 & E0) & Hp).
+        assert (Hwd : wd <> kw_wd kw) by (intros ->; congruence).
+        split; [exists kw0; split; [apply Hfil; split; [assumption | congruence] | assumption]|].
+        now rewrite prem_neq.
+      + intros c x Hx. apply (wi_mvf _ _ _ I) in Hx. lia.
+    - intros e He De Se. destruct (Ht1 e He De) as [He0 Ene].
+      destruct (Cv e He0 De Se) as (kw0 & C1 & C2 & C3). exists kw0.
+      destruct (watch_of_ino_some _ _ _ C1) as [Hk0 Ek0].
+      assert (Hne : kw_wd kw0 <> kw_wd kw).
+      { intros E. assert (kw0 = kw) by (apply (wd_inj k); [apply I| | |]; assumption). subst kw0.
+        apply Ene. apply (ino_inj w); try assumption. congruence. }
+      split; [|split]; cbn [dropped wfp pfw].
+      + apply watch_of_ino_in; [rewrite Hw; apply NoDup_map_filter, I | apply Hfil; now split | assumption].
+      + now rewrite prem_neq.
+      + rewrite wrem_neq; [assumption|]. intros E. apply Ene. apply (path_inj (w_fs w)); [apply W| | |]; assumption.
+  Qed.
+
+  Lemma self_mask_inert m : self_mask m -> inert m.
+  Proof. intros [->| ->]; unfold inert; repeat split; vm_compute; reflexivity. Qed.
+
+  Theorem step_rmdir w k r p w' : RSync w k r -> npath p -> p <> root -> apply_op w (Rmdir p) = Some w' ->
+    let k1 := kernel_op k (w_fs w) (Rmdir p) in
+    exists r' k' evs, read_batch C (w_fs w') (r, drainq k1, []) (k_queue k1) = Done (r', k', evs) /\ RSync w' k' r'.
+  Proof.
+    intros S Np Hpr Ha k1. destruct S as [W Hr I Cv Hq].
+    assert (W' : wf_fs w') by exact (wf_apply_op w (Rmdir p) w' W Np Ha).
+    cbn [apply_op] in Ha.
+    destruct (flookup p (w_fs w)) as [ep|] eqn:El; [|discriminate].
+    destruct (f_dir ep) eqn:Dep; [|discriminate]. destruct (has_children p (w_fs w)) eqn:Ech; [discriminate|].
+    cbn in Ha. injection Ha as <-. destruct (flookup_some _ _ _ El) as [Hep Eep].
+    assert (Eino : ino_of (w_fs w) p = f_ino ep) by (unfold ino_of; now rewrite El).
+    assert (Ht1 : forall e, In e (fremove p (w_fs w)) -> f_dir e = true -> In e (w_fs w) /\ e <> ep).
+    { intros e He _. apply fremove_in in He as [He Hne]. split; [assumption | congruence]. }
+    assert (Ht2 : forall e, In e (w_fs w) -> f_dir e = true -> e <> ep -> In e (fremove p (w_fs w))).
+    { intros e He _ Hne. apply fremove_in. split; [assumption|]. intros E. apply Hne.
+      apply (path_inj (w_fs w)); [apply W| | |]; congruence. }
+    assert (Hroot' : isdir_in root (fremove p (w_fs w))).
+    { destruct Hr as (e & He & Ee & De). exists e. split; [|auto]. apply Ht2; try assumption. intros ->. congruence. }
+    subst k1. cbn [kernel_op w_fs]. rewrite Eino.
+    set (di := ino_of (w_fs w) (dirname p)). set (n := basename p).
+    destruct (watch_of_ino k (f_ino ep)) as [kw|] eqn:Ew.
+    - destruct (watched_entry w k r ep kw W I Hep Ew) as (Sep & _ & Cep & Hkw & Mkw).
+      destruct (kgone_spec k (f_ino ep) false kw Ew) as (pre & -> & Hpre); [rewrite Hq; intros a []|].
+      rewrite Hq. cbn [app]. set (k3 := {| k_watches := _; k_next_wd := _; k_queue := _; k_next_cookie := _ |}).
+      destruct Cep as (Cw & Cp & Cf). rewrite Eep in Cp, Cf.
+      assert (Hpre_inert : Forall (inert_ev r) pre).
+      { eapply Forall_impl; [|exact Hpre]. intros a (A1 & A2 & A3). split; [now apply self_mask_inert|].
+        rewrite A1. eauto. }
+      assert (Hpost : exists post, k_queue (knotify k3 di IN_DELETE true 0 n) = pre ++ [ign_ev kw] ++ post /\
+                 k_watches (knotify k3 di IN_DELETE true 0 n) = k_watches k3 /\
+                 k_next_wd (knotify k3 di IN_DELETE true 0 n) = k_next_wd k /\
+                 k_next_cookie (knotify k3 di IN_DELETE true 0 n) = k_next_cookie k /\
+                 Forall (inert_ev (dropped r p (kw_wd kw))) post).
+      { destruct (knotify_cases k3 di IN_DELETE true 0 n) as [->|(kw' & Hw' & _ & ->)].
+        - exists []. now repeat split.
+        - exists [kev kw' IN_DELETE true 0 n]. cbn [kset_queue k_queue k_watches k_next_wd k_next_cookie k3].
+          rewrite kpush_snoc by (vm_compute; discriminate). repeat split.
+          constructor; [|constructor]. split; [inert_mask|]. cbn [kev k_wd dropped pfw].
+          apply watch_of_ino_some in Hw' as [Hk' _]. cbn [k3 k_watches] in Hk'.
+          apply filter_In in Hk' as [Hk' Hne]. apply negb_true_iff, N.eqb_neq in Hne.
+          rewrite prem_neq by assumption. destruct (wi_exact _ _ _ I kw' Hk') as (e & _ & _ & _ & _ & Pe & _). eauto. }
+      destruct Hpost as (post & Eq & Ew3 & En3 & Ec3 & Hpost). rewrite Eq.
+      rewrite read_batch_app.
+      destruct (read_batch_inert (fremove p (w_fs w)) r (drainq (knotify k3 di IN_DELETE true 0 n)) pre Hpre_inert [])
+        as (evs1 & -> & _).
+      cbn [app read_batch]. unfold ign_ev. rewrite (read_one_ignored _ _ _ _ _ p Cp Cf).
+      fold (dropped r p (kw_wd kw)).
+      destruct (read_batch_inert (fremove p (w_fs w)) _ (drainq (knotify k3 di IN_DELETE true 0 n)) post Hpost
+                  (evs1 ++ [{| r_wd := kw_wd kw; r_mask := IN_IGNORED; r_cookie := 0; r_name := []; r_path := p |}]))
+        as (evs2 & -> & _).
+      eexists _, _, _. split; [reflexivity|].
+      destruct (dropped_sync w (fremove p (w_fs w)) k r ep kw (drainq (knotify k3 di IN_DELETE true 0 n)) W I Cv Hep)
+        as [I' Cv']; try assumption.
+      + unfold cov. rewrite Eep. now split.
+      + cbn. rewrite Ec3. lia.
+      + rewrite Eep in I', Cv'. constructor; try assumption. reflexivity.
+    - cbn [kgone]. unfold kgone. rewrite Ew.
+      destruct (knotify_inert (w_fs w) k r k di IN_DELETE true 0 n I eq_refl) as (A1 & B1 & C1 & D1);
+        [rewrite Hq; constructor | inert_mask|].
+      destruct (read_batch_inert (fremove p (w_fs w)) r (drainq (knotify k di IN_DELETE true 0 n)) _ D1 []) as (evs & -> & _).
+      eexists _, _, _. split; [reflexivity|]. constructor; try assumption; try reflexivity.
+      + apply (WInv_ext' (w_fs w) _ k); try assumption; cbn; try assumption; [|rewrite C1; lia].
+        intros e He De (kw & Hk & Ei). apply Ht2; try assumption. intros ->.
+        rewrite (watch_of_ino_in k (f_ino ep) kw) in Ew; [discriminate | apply I | assumption | assumption].
+      + apply (Cover_ext (w_fs w) _ k); try assumption. intros e He De. now apply Ht1.
   Qed.
 End Cover.
